@@ -128,7 +128,7 @@ class Translator:
         # keyword arguments that do not carry graph objects are dropped; others are appended in source order
         args = [self.expr(a) for a in c.args]
         for kw in c.keywords:
-            if kw.arg in ("logger", "identifier", "focus_nodes", "debug"):
+            if kw.arg in ("logger", "identifier", "focus_nodes", "debug", "rdf_format", "multigraph", "do_owl_imports"):
                 continue
             args.append(self.expr(kw.value))
         return "(ECall %s [%s])" % (cstr(name), "; ".join(args))
